@@ -105,7 +105,7 @@ func propOne(c harness.Case) harness.Result {
 }
 
 var base = []string{"*", "_", "a", " ", "."}
-var extended = []string{"*", "_", "a", " ", ".", "é", " ", "“", "\f"}
+var extended = []string{"*", "_", "a", " ", ".", "é", " ", "“", "\f", "€"}
 
 func enumerate(t *testing.T, plan harness.Plan, name string, alpha []string, maxLen int) {
 	cfg := harness.Cfg()
@@ -192,6 +192,70 @@ func longRuns(t *testing.T, plan harness.Plan) {
 	harness.SetExhaustive(name, fmt.Sprintf("seven templates x both delimiters x every run length 1..%d", max))
 }
 
+// ---- a construct spelled over two lines before the delimiter runs does not
+// change how they resolve: the same paragraph with the construct spelled on
+// one line (a spelling the spec gives the same meaning) renders identically.
+var spellings = []struct{ multi, single string }{
+	{"[l](\n/u)", "[l](/u)"},
+	{"[l](/u\n)", "[l](/u)"},
+	{"[l](/u\n'ti')", "[l](/u 'ti')"},
+	{"![i](\n/u)", "![i](/u)"},
+	{"`x\ny`", "`x y`"},
+	{"``x\n`y``", "``x `y``"},
+	{"[l][r\ns]", "[l][r s]"},
+	{"[r\ns]", "[r s]"},
+}
+
+func propAfterMultiLine(c harness.Case) harness.Result {
+	s := string(c.In)
+	sp := spellings[c.I["spelling"]%len(spellings)]
+	pre := c.S["pre"]
+	def := "\n\n[r s]: /d\n"
+	build := func(construct string) string {
+		doc := pre + construct + s + def
+		switch c.I["container"] {
+		case 1:
+			doc = "> " + strings.ReplaceAll(doc, "\n", "\n> ")
+		case 2:
+			doc = "- " + strings.ReplaceAll(doc, "\n", "\n  ")
+		}
+		return doc
+	}
+	// the only line endings inside the paragraph are the construct's own
+	// (a soft break in a label that is also the link text, for instance)
+	a, b := strings.ReplaceAll(render(build(sp.multi)), "\n", " "), strings.ReplaceAll(render(build(sp.single)), "\n", " ")
+	res := harness.Result{Nontrivial: nontrivial(s)}
+	if a != b {
+		res.Err = fmt.Errorf("the delimiter runs of %q resolve differently after %q than after the one-line spelling %q:\n two lines: %q\n one line:  %q", s, sp.multi, sp.single, a, b)
+	}
+	return res
+}
+
+func genAfterMultiLine(t *rapid.T) harness.Case {
+	n := rapid.IntRange(1, 14).Draw(t, "len")
+	var sb strings.Builder
+	for i := 0; i < n; i++ {
+		k := rapid.IntRange(0, len(extended)+3).Draw(t, "sym")
+		switch {
+		case k < len(extended):
+			if extended[k] == "\f" {
+				sb.WriteString("a")
+			} else {
+				sb.WriteString(extended[k])
+			}
+		case k == len(extended) || k == len(extended)+1:
+			sb.WriteString("*")
+		default:
+			sb.WriteString("_")
+		}
+	}
+	c := harness.Case{In: []byte(strings.TrimRight(sb.String(), " "))}
+	c.SetI("spelling", rapid.IntRange(0, len(spellings)-1).Draw(t, "spelling"))
+	c.SetI("container", rapid.IntRange(0, 2).Draw(t, "container"))
+	c.SetS("pre", []string{"", "x ", "*a ", "_b", "w*"}[rapid.IntRange(0, 4).Draw(t, "pre")])
+	return c
+}
+
 func genRandom(t *rapid.T) harness.Case {
 	n := rapid.IntRange(11, 40).Draw(t, "len")
 	var sb strings.Builder
@@ -214,9 +278,11 @@ const ruleNT = "non-trivial = the string has >= 2 delimiter runs one of which si
 func TestProperty(t *testing.T) {
 	plan := harness.Plan{Prop: "C11", Suppress: findings.Suppressor("C11"), Checks: []harness.Check{
 		{Name: "random", Quick: 100000, Thorough: 1000000, Gen: genRandom, Prop: propOne,
-			Rule: "random strings of length 11-40 over {* _ a SP . é NBSP “ FF} (delimiters weighted), as a paragraph when block-safe and as ATX heading content; oracle = spec process-emphasis without search bounds; " + ruleNT},
+			Rule: "random strings of length 11-40 over {* _ a SP . é NBSP “ FF €} (delimiters weighted), as a paragraph when block-safe and as ATX heading content; oracle = spec process-emphasis without search bounds; " + ruleNT},
+		{Name: "after_multi_line", Quick: 60000, Thorough: 600000, Gen: genAfterMultiLine, Prop: propAfterMultiLine,
+			Rule: "metamorphic: a string of 1-14 symbols over the extended alphabet placed directly after an inline link, image, code span or reference whose source spans two lines (at top level, in a quote, in a list item; after an optional opener), compared with the same paragraph in which that construct is spelled on one line; " + ruleNT},
 		{Name: "exhaustive_base", Prop: propOne, Rule: "exhaustive enumeration over {* _ a SP .}; each string as a one-paragraph document when block-safe (no edge spaces, not a thematic break, not a list item) and always as ATX heading content; " + ruleNT},
-		{Name: "exhaustive_extended", Prop: propOne, Rule: "exhaustive enumeration over {* _ a SP . é NBSP “ FF}; " + ruleNT},
+		{Name: "exhaustive_extended", Prop: propOne, Rule: "exhaustive enumeration over {* _ a SP . é NBSP “ FF €}; " + ruleNT},
 	}}
 	plan.Checks = append(plan.Checks, harness.Check{Name: "long_runs", Prop: propOne,
 		Rule: "templates with one delimiter run of every length 1..700 (a{N}b**, **a{N}b, {N}a{M} ...) for both delimiters: run lengths far beyond what enumeration reaches, around 255/256 and 65535-style boundaries of narrow counters; " + ruleNT})
